@@ -185,7 +185,7 @@ func (p *parser) parseClassMember() *Node {
 		}
 	}
 	if p.isId("accessor") {
-		if nx := p.peek(1); !endsPropertyName(nx) && !nx.NewlineBefore {
+		if nx := p.peek(1); startsPropertyKey(nx) && !nx.NewlineBefore {
 			accessor = true
 			p.note(FeatDecorators, p.t.Start)
 			p.next()
@@ -201,7 +201,7 @@ func (p *parser) parseClassMember() *Node {
 		gen = true
 		p.next()
 	}
-	if !accessor && !async && !gen && (p.isId("get") || p.isId("set")) && !endsPropertyName(p.peek(1)) {
+	if !accessor && !async && !gen && (p.isId("get") || p.isId("set")) && startsPropertyKey(p.peek(1)) {
 		kind = p.t.Ident
 		p.next()
 	}
